@@ -209,7 +209,10 @@ def run_rec(P, entry, fam, matrix, nd, np_, failed, ip=None):
                 return False, 'pointer vector entry v[%d] is left pointing to %r' % (k, v), m
     if m.ntstore_pending:
         return False, 'non-temporal stores not fenced before return', m
-    return True, '', m
+    # stores into surviving parity blocks (with their own value: checked above).  The property asks that no parity block is touched
+    # that recovery was not asked to rebuild: reported separately (R-C03-2w), the value-level post-condition holds
+    rew = sorted(buf for buf in m.buf_written if buf not in fset and buf >= nd)
+    return True, ('REWRITES:' + ','.join(str(b - nd) for b in rew)) if rew else '', m
 
 
 def _task(t):
@@ -312,6 +315,7 @@ def check_rec(ctx, rep):
         results = pool.map(_task, tasks, chunksize=4)
     steps = 0
     fails = {}
+    rewrites = {}
     for t, st, det, ns in results:
         steps += ns
         entry, fam, matrix, nd, np_, failed, ip = t
@@ -320,11 +324,20 @@ def check_rec(ctx, rep):
             raise AnalysisBroken('E2 cannot interpret %s: %s' % (inst, det))
         if st == 'ok':
             rep.ok('R-C03-2', inst, '')
+            if det.startswith('REWRITES:'):
+                rewrites.setdefault(entry, []).append((inst, det[9:]))
         else:
             fails.setdefault((fam, matrix, len([x for x in failed if x < nd])), []).append((inst, det))
     for (fam, matrix, nrd), lst in sorted(fails.items()):
         fn = FAMILIES[fam]['rec'][min(max(nrd, 1) - 1, 2)]
         rep.fail('R-C03-2', lst[0][0], P.functions[fn].file + ':' + str(P.functions[fn].line), lst[0][1] + ' (%d failing configurations in this group)' % len(lst), function=fn, construct='decoder')
+    rep.rule('R-C03-2w', 'raid_rec / raid_data store only into the blocks they were asked to rebuild (a surviving parity block is not even re-written with its own value)', 2)
+    for entry in ('rec', 'data'):
+        lst = rewrites.get(entry, [])
+        fn = 'raid_' + entry
+        rep.check(not lst, 'R-C03-2w', '%s leaves the surviving parity blocks alone' % fn, P.functions[fn].file + ':' + str(P.functions[fn].line),
+                  'no store into a surviving parity in any configuration' if not lst else '%s: the parity blocks %s are not in the failure list and are stored to (%d configurations): raid_rec ends with raid_gen(nd, highest failed parity + 1), which recomputes every parity below the highest lost one -- the same bytes when that parity was consistent, but a parity that the caller left out of the decoding because it does not trust it, or keeps read-only, is overwritten' % (lst[0][0], lst[0][1], len(lst)),
+                  function=fn, construct='surviving parity rewritten')
     rep.extra['decoder_runs'] = len(tasks)
     rep.extra['abstract_steps'] = steps
 
